@@ -178,6 +178,41 @@ PROPS["C06"] = dict(
          "pruned by minimal match length), z3, oracle functions verifSameDir / verifHashedViewEq.",
 )
 
+SCHEMA = dict(pkg="ariga.io/atlas/sql/schema", hdir="schema")
+PROPS["C19"] = dict(
+    SCHEMA,
+    runs={
+        "quick": [
+            dict(harness="VerifHarness_C19_p1", reach=["ok", "error", "excluded"]),
+            dict(harness="VerifHarness_C19_p1g2", reach=["ok", "error", "excluded"]),
+            dict(harness="VerifHarness_C19_p2", reach=["ok", "error", "excluded"]),
+        ],
+        "thorough": [
+            dict(harness="VerifHarness_C19_p1", reach=["ok", "error", "excluded"]),
+            dict(harness="VerifHarness_C19_p1g3", reach=["ok", "error", "excluded"]),
+            dict(harness="VerifHarness_C19_p1sym", reach=["ok", "excluded"], cross=False),
+            dict(harness="VerifHarness_C19_p2", reach=["ok", "error", "excluded"], cross=False),
+        ],
+    },
+    bounds={
+        "quick": "realm of 2 schemas x 2 tables x (2 columns, 1 index, 1 foreign key, 1 named check); one pattern of 1..3 parts whose globs are "
+                 "1 symbolic byte each over {a,b,c,*,?,[,],-,^,\\} with any of 13 [type=...] selectors; one pattern whose last glob has 2 symbolic "
+                 "bytes; two patterns (last glob symbolic, earlier parts in {*,a}, 4 selectors)",
+        "thorough": "same plus a 3-byte last glob, and symbolic one-letter resource names for schemas, tables and one table's columns",
+    },
+    assumptions=[
+        "path/filepath.Match (interpreted from source on symbolic bytes) is the glob oracle of the reference; encoding/csv splitting is interpreted from source",
+        "indexes / foreign keys built on an excluded column are 'don't care' (removed only when the selector also admits their kind)",
+        "selectors are attached to the last pattern part only",
+    ],
+    outside="the skip-change-kinds half (DiffOptions.Skipped: see C02 notes), views/functions/procedures/triggers and realm objects, "
+            "patterns with more than the bounded glob length, schema apply --exclude end to end",
+    claim="For every pattern (glob bytes are solver variables) within the bounds, the real ExcludeRealm either rejects the pattern with an "
+          "error or returns a realm in which exactly the resources addressed by some pattern (path parts match, selector admits the kind, "
+          "children go with an excluded parent) are absent and all others are still present, compared with a declarative reference.",
+    note="Bounded. Trusted: the reference verifExcluded, engine, z3. Only the exclusion half of C19 is claimed by this check.",
+)
+
 NOT_APPLICABLE = {
     "C01": "needs a real SQLite engine executing the planned SQL and pragma-based inspection; neither cgo code nor SQLite's DDL "
            "semantics can be encoded by an SSA-level symbolic executor, and a hand-written catalogue model would verify the model, not Atlas "
